@@ -92,7 +92,7 @@ def replay(ctx, name, behs, params, chunk=200):
   return st
 
 
-SMALL = dict(NP=2, NB=1, MaxEntries=2)
+SMALL = dict(NP=2, NB=1, MaxEntries=2, ResOut=65533)      # f3 outputs to OFPP_CONTROLLER
 
 
 def run(ctx):
@@ -120,7 +120,8 @@ def run(ctx):
       "PORT_STATUS / FLOW_REMOVED notifications are not replies and are ignored here (C04/C12)",
   ]
   # 1. the property on the model ------------------------------------------------
-  model_check(ctx, "MC_small.cfg", "SwitchRPC 2 ports, 1 buffer, table 2, counters<=1, 2 xids")
+  model_check(ctx, "MC_smallq.cfg" if quick else "MC_small.cfg",
+              "SwitchRPC 2 ports, 1 buffer, table 2, counters<=1, 2 xids")
   model_check(ctx, "MC_full1q.cfg" if quick else "MC_full1.cfg",
               "SwitchRPC table capacity 1 (table-full answers)")
   if not quick:
@@ -128,17 +129,21 @@ def run(ctx):
   # 2. spec -> code: every transition of the abstract graph (probe after each step)
   r = tlc.run(DIR, MOD, "EX_edges_cfg.cfg", workers=1, coverage=False, tag="C13")
   replay(ctx, "edges_config", r.tagged("T"), dict(seed=sd * 7 + 1, probe=True, **SMALL))
-  r = tlc.run(DIR, MOD, "EX_edges_tbl.cfg", workers=1, coverage=False, tag="C13", timeout=1500)
+  # quick: TLC exports the transitions leaving a seed-chosen 1/8 of the states (every kind of
+  # transition, from every slice of the state space), of which a stratified sample is replayed
+  r = tlc.run(DIR, MOD, "EX_edges_tblq.cfg" if quick else "EX_edges_tbl.cfg", workers=1, coverage=False,
+              tag="C13", timeout=1500, env={"C13_SAMPLE_K": str(sd % 8)})
   behs = r.tagged("T")
   total = len(behs)
   if quick:
     behs = stratified(behs, 3500, sd)
   replay(ctx, "edges_table", behs, dict(seed=sd * 7 + 2, probe=True, **SMALL))
-  ctx.notes["replay_edges_table"]["transitions_in_graph"] = total
+  ctx.notes["replay_edges_table"]["transitions_exported"] = total
   if not quick:
-    r = tlc.run(DIR, MOD, "EX_edges_full1.cfg", workers=1, coverage=False, tag="C13", timeout=1500)
+    r = tlc.run(DIR, MOD, "EX_edges_full1.cfg", workers=1, coverage=False, tag="C13", timeout=1500,
+                env={"C13_SAMPLE_K": str(sd % 2)})      # half of the states of the capacity-1 graph
     replay(ctx, "edges_table_full1", r.tagged("T"),
-           dict(seed=sd * 7 + 3, probe=True, NP=2, NB=1, MaxEntries=1))
+           dict(seed=sd * 7 + 3, probe=True, NP=2, NB=1, MaxEntries=1, ResOut=65533))
   # 3. every action sequence of length 2 (3), without probes in between
   r = tlc.run(DIR, MOD, "EX_paths_D2.cfg", workers=1, coverage=False, tag="C13")
   replay(ctx, "all_paths_2", r.tagged("H"), dict(seed=sd * 7 + 4, **SMALL))
@@ -148,8 +153,9 @@ def run(ctx):
   # 4. long random behaviours (full alphabet; and without the open-finding variants, so that
   #    histories really reach length 40 on a tree where those findings are open)
   num = 40 if quick else 1200
-  for i, (cfg, params) in enumerate([("EX_sim.cfg", SMALL), ("EX_sim_deep.cfg", SMALL)] +
-                                    ([] if quick else [("EX_sim_big.cfg", dict(NP=3, NB=2, MaxEntries=1))])):
+  for i, (cfg, params) in enumerate([("EX_sim.cfg", SMALL), ("EX_sim_deep.cfg", dict(SMALL, ResOut=65531))] +
+                                    ([] if quick else [("EX_sim_big.cfg", dict(NP=3, NB=2, MaxEntries=1,
+                                                                                ResOut=65534))])):
     r = tlc.run(DIR, MOD, cfg, workers=1, coverage=False, simulate=dict(num=num), depth=41,
                 seed=sd + 1 + i, tag="C13", timeout=1500)
     behs = r.tagged("H")
@@ -234,8 +240,12 @@ def corrupt(traces):
 
 
 XS = ["x1", "x2", "x3"]
-FLOWARGS = [(0, "all", 65535), (255, "all", 65535), (0, "f1", 65535), (255, "f2", 65535),
-            (255, "all", 2), (5, "all", 65535)]
+RES_OUT, RES_OTHER = 65533, 65531          # as in Trace.cfg
+FLOWARGS = ([(255, "all", o) for o in (65535, 1, 2, 9, RES_OUT, RES_OTHER)] +
+            [(0, "all", 65535), (0, "all", RES_OUT), (0, "all", 2),
+             (0, "f1", 65535), (255, "f1", 2), (255, "f1", RES_OUT), (255, "f1x", 65535),
+             (255, "f2", 65535), (255, "f2", 2), (255, "f3", RES_OUT), (255, "f3", 2), (0, "f3", 65535),
+             (5, "all", 65535), (5, "all", RES_OUT), (1, "all", 65535), (254, "all", 65535)])
 
 
 def gen(rnd, st):
@@ -281,7 +291,7 @@ def gen(rnd, st):
     # st["maybe"]: flows the driver has asked for and not deleted = upper bound of the table
     # (the spec refuses to consider "addbad" on a full table: one thing wrong at a time)
     if c < 0.6:
-      cmd, f = rnd.choice(["add", "addov", "mod", "del"]), rnd.choice(["f1", "f2"])
+      cmd, f = rnd.choice(["add", "addov", "mod", "del"]), rnd.choice(["f1", "f2", "f3"])
       if cmd == "del":
         st["maybe"].discard(f)
       else:
@@ -294,6 +304,11 @@ def gen(rnd, st):
       if cmd == "addbad" and len(st["maybe"]) >= 2:
         cmd = "badcmd"
       return "FlowMod", dict(xid=x, cmd=cmd, f="f1", buf="none", slot=0)
+    if len(st["maybe"] - {"f1"}) >= 2:
+      # the table may be full of other flows: the spec pairs a buffer only with an ADD that can succeed
+      f = rnd.choice(sorted(st["maybe"]))
+      st["maybe"].discard(f)
+      return "FlowMod", dict(xid=x, cmd="del", f=f, buf="none", slot=0)
     occ = sorted(st["slots"])
     free = [s for s in range(1, st["NB"] + 1) if s not in st["slots"] and s not in st["limbo"]]
     if occ and c < 0.95:
@@ -343,7 +358,7 @@ def drive(arg):
   seed, n = arg
   from harness.adapters_c13 import Adapter, schema_ok
   rnd = random.Random(seed)
-  ad = Adapter(NP=2, NB=1, MaxEntries=2, seed=seed)
+  ad = Adapter(NP=2, NB=1, MaxEntries=2, seed=seed, ResOut=RES_OUT)
   st = dict(NB=1, slots=set(), down={1: False, 2: False}, limbo=set(), maybe=set())
   tr = []
   while len(tr) < n:
